@@ -115,6 +115,11 @@ def angle_arrays(max_ndim=3, small=False):
     pick = rng.choice(special, size=min(len(special), 5 if small else 8), replace=False)
     fams.append(("special-grid", pick[:, None], pick[None, :]))
     fams.append(("scalar-scalar", float(rng.uniform(-span, span)), float(rng.uniform(-span, span))))
+    # memory layouts: Fortran-ordered and transposed (non-C-contiguous) 2-D arrays are the same angles
+    fams.append(("mat-mat-F", np.asfortranarray(rng.uniform(-span, span, (n, m))), np.asfortranarray(rng.uniform(-span, span, (n, m)))))
+    g_ = rng.uniform(-np.pi, np.pi, n)
+    tile = np.tile(g_, (n, 1))
+    fams.append(("grid-and-transpose", tile, tile.T))
     if max_ndim >= 3:
         fams.append(("3d", rng.uniform(-span, span, (2, 1, m)), rng.uniform(-span, span, (1, n, 1))))
     return fams
